@@ -62,7 +62,9 @@ def check(prog: Program, tier: str) -> Result:
     _r17_8(prog, res)
     _r17_9(prog, res)
     _r17_10(prog, res)
-    res.floors.update({"R17.10": 3, "R17.9": 3, "R17.1": 12, "R17.2": 10, "R17.3": 4, "R17.4": 40, "R17.5": 6, "R17.6": 4, "R17.7": 2, "R17.8": 1})
+    _r17_11(prog, res)
+    _r17_12(prog, res)
+    res.floors.update({"R17.11": 3, "R17.10": 3, "R17.9": 3, "R17.1": 12, "R17.2": 10, "R17.3": 4, "R17.4": 40, "R17.5": 6, "R17.6": 4, "R17.7": 2, "R17.8": 1})
     res.analysed["bound_claims"] = n_claims
     return res
 
@@ -151,6 +153,123 @@ def _reader_obligation(prog: Program, res: Result, fn: Func, sub: ast.Subscript)
     res.decide(single, "R17.1", fn.loc(ctor), fn.fq, f"single-operator restriction for {src}",
                "the comparison is selected by a template with exactly one operator/comparator" if single else
                "no template restricts the negated comparison to a single operator: `a < b < c` would become `a >= b >= c`")
+
+
+# ------------------------------------------------------------------------------------------------ R17.12
+def _r17_12(prog: Program, res: Result) -> None:
+    """'Leave it alone' is not a replacement.  A rule yields `(node, helper(part))` where part is a sub-node of node.  If the
+    helper can `return <that parameter>` - its way of saying "nothing to simplify" - the rule replaces the whole node by one of
+    its own parts: `sum(range(2, 11, 2))` became `range(2, 11, 2)`.  Instance: every yield of a rule generator whose replacement
+    is (a local bound to) a call of a repository helper that receives a part of the replaced node."""
+    from ..defuse import bindings
+    n = 0
+    for fn in prog.funcs.values():
+        if not fn.is_fix:
+            continue
+        for y in walk_own(fn.node):
+            if not (isinstance(y, ast.Yield) and isinstance(y.value, ast.Tuple) and len(y.value.elts) >= 2 and isinstance(y.value.elts[0], ast.Name)):
+                continue
+            N = y.value.elts[0].id
+            R = y.value.elts[1]
+            if isinstance(R, ast.Name):
+                defs = [d for _s, d in bindings(fn).get(R.id, []) if d is not None]
+                # the definition that reaches the yield: the textually last one before it
+                defs = [d for d in defs if getattr(d, "lineno", 0) <= y.lineno]
+                R = max(defs, key=lambda d: d.lineno) if defs else R
+            if not isinstance(R, ast.Call):
+                continue
+            r = prog.resolve_call(R.func, fn.mod, fn)
+            if not (r and r[0] == "fn"):
+                continue
+            helper = r[1]
+
+            def part_of_node(a: ast.AST, depth: int = 0) -> bool:
+                if depth > 3:
+                    return False
+                e = a
+                hops = 0
+                while isinstance(e, (ast.Attribute, ast.Subscript)):
+                    e = e.value
+                    hops += 1
+                if isinstance(e, ast.Name) and e.id == N and hops > 0:
+                    return True
+                if isinstance(a, ast.Name) and a.id != N:
+                    ds = [d for _s, d in bindings(fn).get(a.id, []) if d is not None]
+                    return len(ds) == 1 and part_of_node(ds[0], depth + 1)
+                return False
+            for i, a in enumerate(R.args):
+                if i >= len(helper.posparams) or not part_of_node(a):
+                    continue
+                n += 1
+                p_ = helper.posparams[i]
+                gives_up = [rt for rt in walk_own(helper.node) if isinstance(rt, ast.Return) and isinstance(rt.value, ast.Name) and rt.value.id == p_
+                            and not any(isinstance(st, (ast.Assign, ast.AugAssign)) and p_ in {t.id for t in ast.walk(st) if isinstance(t, ast.Name) and isinstance(t.ctx, ast.Store)}
+                                        for st in walk_own(helper.node))]
+                res.decide(not gives_up, "R17.12", fn.loc(y), fn.fq, f"{short(y, 40)} # replacement computed by {helper.name}",
+                           f"{helper.name}() never hands its argument back" if not gives_up else
+                           f"{helper.name}() can `return {p_}` (line {gives_up[0].lineno}: nothing to simplify), and the rule yields that as the replacement of the whole `{N}`: "
+                           "the node is replaced by one of its own parts (`sum(range(2, 11, 2))` -> `range(2, 11, 2)`)")
+    if n == 0:
+        res.undecided("R17.12", "pyrefact/", "package", "helpers fed a part of the replaced node", "none found")
+
+
+# ------------------------------------------------------------------------------------------------ R17.11
+def _r17_11(prog: Program, res: Result) -> None:
+    """One template, several functions: a rule that walks calls of `ast.Name(id=<a table of several names>)` (sum AND len, ...)
+    and replaces them by a closed form must know WHICH function it is looking at.  Contradiction rule: if one yield of the loop
+    is reached only under a test of `<node>.func.id`, every yield that replaces the node must be (the closed form of a sum is
+    not the length: `len([1, 2, 3])` became `6`)."""
+    from ..pathcond import PathAnalysis, plain
+    from ..defuse import bindings
+    from ..model import ConstEval
+    n = 0
+    for fn in prog.funcs.values():
+        if not fn.is_fix:
+            continue
+        for lp in walk_own(fn.node):
+            if not (isinstance(lp, ast.For) and isinstance(lp.target, ast.Name) and isinstance(lp.iter, ast.Call) and len(lp.iter.args) >= 2
+                    and (prog.dotted(lp.iter.func) or "").split(".")[-1] in ("walk", "filter_nodes")):
+                continue
+            v = lp.target.id
+            # the template: ast.Call(func=ast.Name(id=<several names>))
+            t = lp.iter.args[1]
+            if isinstance(t, ast.Name):
+                defs = [d for _s, d in bindings(fn).get(t.id, []) if d is not None]
+                t = defs[0] if len(defs) == 1 else t
+            several = False
+            for c in ast.walk(t):
+                if isinstance(c, ast.Call) and ast_class_name(prog, fn, c.func) == "Name":
+                    for kw in c.keywords:
+                        if kw.arg == "id":
+                            try:
+                                val = ConstEval(prog, fn.mod).ev(kw.value)
+                                several = several or (isinstance(val, (tuple, set, frozenset, list)) and len(val) > 1)
+                            except Exception:
+                                if isinstance(kw.value, ast.Call) and norm(kw.value.func) == "tuple" and kw.value.args:
+                                    try:
+                                        val = ConstEval(prog, fn.mod).ev(kw.value.args[0])
+                                        several = several or len(val) > 1
+                                    except Exception:
+                                        pass
+            if not several:
+                continue
+            pa = PathAnalysis(prog, fn)
+            ys = [y for y in ast.walk(lp) if isinstance(y, ast.Yield) and isinstance(y.value, ast.Tuple) and y.value.elts and isinstance(y.value.elts[0], ast.Name) and y.value.elts[0].id == v]
+            tested = {}
+            for y in ys:
+                worlds = pa.worlds_at(y)
+                tested[id(y)] = bool(worlds) and all(any(f[0] == "lit" and f".func.id" in plain(f[1]) and w.token(v).split("#")[0] in plain(f[1]) for f in w.facts) for w in worlds)
+            if not any(tested.values()):
+                continue         # no stated belief: the rule never distinguishes the functions
+            for y in ys:
+                n += 1
+                ok = tested[id(y)]
+                res.decide(ok, "R17.11", fn.loc(y), fn.fq, short(y, 70),
+                           f"reached only under a test of {v}.func.id" if ok else
+                           f"the template matches several function names and another branch of this loop tests `{v}.func.id`, but this replacement is made for ALL of them: "
+                           "`len([1, 2, 3])` is given the closed form of the sum (6)")
+    if n == 0:
+        res.undecided("R17.11", "pyrefact/symbolic_math.py:0", "symbolic_math.simplify_math_iterators", "function-name dispatch", "no loop over a several-names call template with a name test found")
 
 
 # ------------------------------------------------------------------------------------------------ R17.10
@@ -1147,6 +1266,10 @@ def _run_branch(stmts, state, c, cvar) -> None:
 from ..selftest import Variant  # noqa: E402
 
 VARIANTS = [
+    Variant("helper-hands-its-argument-back", "FIRE", "symbolic_math", "        raise ValueError(\"Only a range with step 1 has this closed form\")", "        return rng", "R17.12"),
+    Variant("function-name-tested-in-one-branch-only", "FIRE", "symbolic_math",
+            "        if node.func.id != \"sum\":\n            continue  # The closed forms below are those of sums, len([1, 2, 3]) is not 6\n\n        arg = node.args[0]\n        if core.match_template(arg, ast.Call(func=ast.Name(id=\"range\"))):\n            if any((node is not arg for node in core.walk(arg, (ast.Attribute, ast.Call)))):\n                continue\n",
+            "        arg = node.args[0]\n        if core.match_template(arg, ast.Call(func=ast.Name(id=\"range\"))):\n            if any((node is not arg for node in core.walk(arg, (ast.Attribute, ast.Call)))):\n                continue\n            if node.func.id != \"sum\":\n                continue\n", "R17.11"),
     Variant("range-bound-from-any-constant", "FIRE", "symbolic_math",
             "                left=ast.Name(id=target_name), ops=[ast.Gt()], comparators=[ast.Constant(value=int)]",
             "                left=ast.Name(id=target_name), ops=[ast.Gt()], comparators=[ast.Constant()]", "R17.9"),
